@@ -136,6 +136,9 @@ class ReadFramesLazy(Family):
         ctx.prove("(a) Rows preserved: materialised cell (r,c) is the view's cell", z3.And(
             z3.BoolVal(ra._shape is out_shape.obj), data.get(out_shape.S(r) + c) == D.fn(v.S(r) + c * v.step)))
         import os
+        if os.environ.get("VERIF_PROPERTY", "C10") == "C06":
+            # C06: assigning into the derived array must never alter its source: the materialised data are a fresh buffer
+            ctx.prove("(d) materialised data do not alias the source buffer", z3.BoolVal(data.buf is not D.buf))
         if os.environ.get("VERIF_PROPERTY", "C10") == "C10":
             # the history property only: a write to the SOURCE after this read is no longer seen (known finding of C10)
             ctx.prove("(b) buffer dependence unchanged", z3.BoolVal(data.buf is D.buf), info={"op": kind})
